@@ -71,18 +71,39 @@ Theorem C20_optimum_keeps : forall K minpos op oi s s' nf,
   (s_pp s = PolOff <-> s_pp s' = PolOff) /\ (s_pp s <> PolOff -> s_crystal s' = s_crystal s).
 Proof. exact optimum_keeps. Qed.
 
-(* every normalised value = unnormalised value / unnormalised value at the centre of the optimised setup *)
+(* ... and everything else that is not optimised: crystal azimuth, phase-matching type, counter-propagation flag, the signal's
+   polarization, the apodization of the poling; the new idler has the energy-conserving wavelength, the type's idler polarization
+   and the azimuth opposite to the optimised signal's *)
+Theorem C20_optimum_keeps_more : forall K minpos op oi s s' nf,
+  try_as_optimum R_ops K minpos op oi s = Ok (s', nf) ->
+  cs_phi (s_crystal s') = cs_phi (s_crystal s) /\ cs_pm (s_crystal s') = cs_pm (s_crystal s) /\
+  cs_counter (s_crystal s') = cs_counter (s_crystal s) /\
+  b_pol (s_signal s') = b_pol (s_signal s) /\
+  b_pol (s_idler s') = idler_polarization (cs_pm (s_crystal s)) /\
+  b_phi (s_idler s') = normalize_angle R_ops (nadd R_ops (b_phi (s_signal s')) (npi R_ops)) /\
+  b_wavelength (s_idler s') = idler_wavelength R_ops (s_signal s') (s_pump s) /\
+  match s_pp s, s_pp s' with
+  | PolOff, PolOff => True
+  | PolOn _ _ a, PolOn _ _ a' => a' = a
+  | _, _ => False
+  end.
+Proof. exact optimum_keeps_more. Qed.
+
+(* every normalised value = unnormalised value / unnormalised value at the centre of the optimised setup -- where that reference
+   is not 0 (at a zero reference the implementation returns x/0; the stream requires a minimum number of non-zero references) *)
 Theorem C20_normalised_def : forall K minpos op oi jsa_raw singles_raw norm_jsi norm_singles freq s j so nf ws wi,
   joint_spectrum_new K minpos op oi jsa_raw singles_raw norm_jsi norm_singles freq s = Ok j ->
   try_as_optimum R_ops K minpos op oi s = Ok (so, nf) ->
   let '(w0s, w0i) := center freq so in
-  jsa_normalized jsa_raw norm_jsi j ws wi =
-    Cdiv (jsa_of jsa_raw norm_jsi s ws wi) (RtoC (Cmod (jsa_of jsa_raw norm_jsi so w0s w0i))) /\
-  (0 <= norm_jsi so w0s w0i ->
+  (jsa_of jsa_raw norm_jsi so w0s w0i <> 0%C ->
+     jsa_normalized jsa_raw norm_jsi j ws wi =
+       Cdiv (jsa_of jsa_raw norm_jsi s ws wi) (RtoC (Cmod (jsa_of jsa_raw norm_jsi so w0s w0i)))) /\
+  (0 <= norm_jsi so w0s w0i -> jsi_of jsa_raw norm_jsi so w0s w0i <> 0 ->
      jsi_normalized jsa_raw norm_jsi j ws wi = jsi_of jsa_raw norm_jsi s ws wi / jsi_of jsa_raw norm_jsi so w0s w0i) /\
-  jsi_singles_normalized singles_raw norm_singles j ws wi =
-    singles_of singles_raw norm_singles s ws wi / singles_of singles_raw norm_singles so w0s w0i.
-Proof. exact normalised_def. Qed.
+  (singles_of singles_raw norm_singles so w0s w0i <> 0 ->
+     jsi_singles_normalized singles_raw norm_singles j ws wi =
+       singles_of singles_raw norm_singles s ws wi / singles_of singles_raw norm_singles so w0s w0i).
+Proof. exact normalised_def_guarded. Qed.
 
 Theorem C20_ranges_pointwise : forall jsa_raw singles_raw norm_jsi norm_singles j grid,
   jsa_normalized_range jsa_raw norm_jsi j grid = map (fun p => jsa_normalized jsa_raw norm_jsi j (fst p) (snd p)) grid /\
@@ -96,9 +117,10 @@ Theorem C20_idler_singles_def : forall K minpos op oi jsa_raw singles_raw norm_j
   exists ji so nf,
     joint_spectrum_new K minpos op oi jsa_raw singles_raw norm_jsi norm_singles freq (swap_signal_idler pm_inv (js_spdc j)) = Ok ji /\
     try_as_optimum R_ops K minpos op oi (swap_signal_idler pm_inv (js_spdc j)) = Ok (so, nf) /\
-    l = map (fun p => singles_of singles_raw norm_singles (swap_signal_idler pm_inv (js_spdc j)) (snd p) (fst p) /
-                      singles_of singles_raw norm_singles so (fst (center freq so)) (snd (center freq so))) grid.
-Proof. exact idler_singles_def. Qed.
+    (singles_of singles_raw norm_singles so (fst (center freq so)) (snd (center freq so)) <> 0 ->
+     l = map (fun p => singles_of singles_raw norm_singles (swap_signal_idler pm_inv (js_spdc j)) (snd p) (fst p) /
+                       singles_of singles_raw norm_singles so (fst (center freq so)) (snd (center freq so))) grid).
+Proof. exact idler_singles_def_guarded. Qed.
 
 (* an optimised setup has normalised coincidence intensity 1, normalised amplitude of modulus 1 and normalised singles
    intensity 1 at its centre (guards: the reference values are not 0) *)
@@ -117,12 +139,13 @@ Theorem C20_square : forall (jsa_raw : spdc R -> R -> R -> C) (norm_jsi : spdc R
   jsi_normalized jsa_raw norm_jsi j ws wi = (Cmod (jsa_normalized jsa_raw norm_jsi j ws wi)) ^ 2.
 Proof. exact square. Qed.
 
-(* sweep normalisation: raw sweep values divided by the reference taken from the base setup's optimum *)
+(* sweep normalisation: raw sweep values divided by the (non-zero) reference taken from the base setup's optimum *)
 Theorem C20_sweep : forall K minpos op oi jsa_raw norm_jsi freq base setups opt nf,
   try_as_optimum R_ops K minpos op oi base = Ok (opt, nf) ->
+  jsi_of jsa_raw norm_jsi opt (fst (center freq opt)) (snd (center freq opt)) <> 0 ->
   jsi_values_normalized K minpos op oi jsa_raw norm_jsi freq base setups =
   Ok (map (fun v => v / jsi_of jsa_raw norm_jsi opt (fst (center freq opt)) (snd (center freq opt))) (jsi_values jsa_raw norm_jsi freq setups)).
-Proof. exact sweep. Qed.
+Proof. exact sweep_guarded. Qed.
 
 (* =====================================================================================================================
    FULL STRENGTH for the code as it is now (try_as_optimum_now = the model with the flags the generator reads off the source;
@@ -141,14 +164,24 @@ Theorem C20_unit_at_centre_of_optimum : forall K minpos jsa_raw singles_raw norm
   (singles_of singles_raw norm_singles so w0s w0i <> 0 -> jsi_singles_normalized singles_raw norm_singles j w0s w0i = 1).
 Proof. exact unit_at_centre_of_optimum. Qed.
 
+(* the same PER SETUP: only what optimising THIS setup asks of the oracles *)
+Theorem C20_idempotent_now_at : forall K minpos s s' nf,
+  optimum_contract_at K minpos s -> try_as_optimum_now K minpos s = Ok (s', nf) -> try_as_optimum_now K minpos s' = Ok (s', nf).
+Proof. exact optimum_idempotent_now_at. Qed.
+
 (* COMPOSED with the generated / proved kernels of C03 / C04 (oracles_of_model, any index function, any Snell inverse, any
-   termination tests): the two collinear contracts are PROVED for that instance (external angle asin(n sin 0) = 0; emission angle
-   of a collinear signal: val = n_s sin(theta_s) / sqrt(arg) = 0 whatever the poling), so idempotence has no oracle hypothesis. *)
-Theorem C20_collinear_contract_composed : forall index_of snell_inv sd_theta sd_period,
-  collinear_contract (oracles_of_model index_of snell_inv sd_theta sd_period).
-Proof. exact collinear_contract_composed. Qed.
+   termination tests; every partial floating-point operation guarded by its definedness): the contract of optimising a setup is
+   PROVED for that instance (external angle of the collinear optimised signal: n sin 0 = 0, asin 0 whatever the crystal angle;
+   emission angle of a collinear signal: val = n_s sin(theta_s) / sqrt(arg) = 0 whatever the poling) PROVIDED the idler's angle is
+   defined (arg > 0) under the poling before and after the optimisation -- where it is not, the implementation's idler angle is
+   NaN under one of them and the two runs differ. *)
+Theorem C20_optimum_contract_composed : forall index_of snell_inv sd_theta sd_period minpos s,
+  idler_defined_before_and_after index_of snell_inv sd_theta sd_period minpos s ->
+  optimum_contract_at (oracles_of_model index_of snell_inv sd_theta sd_period) minpos s.
+Proof. exact optimum_contract_composed. Qed.
 
 Theorem C20_idempotent_composed : forall index_of snell_inv sd_theta sd_period minpos s s' nf,
+  idler_defined_before_and_after index_of snell_inv sd_theta sd_period minpos s ->
   try_as_optimum_now (oracles_of_model index_of snell_inv sd_theta sd_period) minpos s = Ok (s', nf) ->
   try_as_optimum_now (oracles_of_model index_of snell_inv sd_theta sd_period) minpos s' = Ok (s', nf).
 Proof. exact idempotent_composed. Qed.
@@ -163,9 +196,11 @@ Proof. exact (ex_optimises optimum_idler_sees_old_poling optimum_waist_sees_old_
 
 Print Assumptions C20_try_as_optimum_is_generated.
 Print Assumptions C20_spectrum_is_generated.
-Print Assumptions C20_collinear_contract_composed.
+Print Assumptions C20_optimum_contract_composed.
+Print Assumptions C20_idempotent_now_at.
 Print Assumptions C20_idempotent_composed.
 Print Assumptions C20_idempotent_now.
+Print Assumptions C20_optimum_keeps_more.
 Print Assumptions C20_unit_at_centre_of_optimum.
 Print Assumptions C20_idempotent.
 Print Assumptions C20_idempotent_after_two.
